@@ -335,3 +335,11 @@ Lemma index_refuted_residual :
   let q := EAnd q15 (ECmp CGt (ECol 1) (ELit (VInt 7))) in
   query_a (run_a h) q = [[VInt 1; VInt 5; VInt 1]] /\ query_b (run_b h) q = [] /\ q_class (run_a h) q = 3.
 Proof. vm_compute. repeat split. Qed.
+
+(* CREATE INDEX skips the rows with a NULL in any indexed column (INSERT does not): a point query on
+   the first column of a composite index misses them: class 4 *)
+Lemma index_refuted_backfill :
+  let h := [TIns [VInt 1; VNull; VInt 2]; TCreate 1] in
+  let q := ECmp CEq (ECol 2) (ELit (VInt 2)) in
+  query_a (run_a h) q = [] /\ query_b (run_b h) q = [[VInt 1; VNull; VInt 2]] /\ q_class (run_a h) q = 4.
+Proof. vm_compute. repeat split. Qed.
